@@ -92,6 +92,15 @@ func main() {
 		// certificates (a CRL, EC parameters) before and between the CA certificates
 		crl := pem.EncodeToMemory(&pem.Block{Type: "X509 CRL", Bytes: []byte{0x30, 0x03, 0x02, 0x01, 0x01}})
 		ecp := pem.EncodeToMemory(&pem.Block{Type: "EC PARAMETERS", Bytes: []byte{0x06, 0x08, 0x2a, 0x86, 0x48, 0xce, 0x3d, 0x03, 0x01, 0x07}})
+		// a long bundle: 300 KiB of other CA certificates and comments before the CA that matters
+		{
+			var parts [][]byte
+			for len(bytes.Join(parts, nil)) < 300<<10 {
+				parts = append(parts, []byte("# an unrelated authority\n"), caserver.NewCA("verif filler CA").PEM)
+			}
+			parts = append(parts, ca1.PEM, ca2.PEM)
+			bundles["one-file-long"] = []string{write("b6.pem", parts...)}
+		}
 		bundles["one-file-mixed-blocks"] = []string{write("b5.pem", []byte("# CA bundle of the signing service\n# Subject: CN=verif CA 3"), ca3.PEM, crl, []byte("Subject: CN=verif CA 1\nIssuer: self"), ca1.PEM, ecp, crl, ca2.PEM, []byte("# end"))}
 		// beside everything else (it has to wait for a certificate to lapse): a long-lived signer whose client
 		// certificate expires while it is in use still presents the configured certificate
@@ -120,7 +129,7 @@ func main() {
 				continue
 			}
 			rng := c.Rand
-			bname := []string{"one-file-one-ca", "one-file-three-cas", "two-files", "three-files-no-trailing-newline", "one-file-mixed-blocks"}[rng.Intn(5)]
+			bname := []string{"one-file-one-ca", "one-file-three-cas", "two-files", "three-files-no-trailing-newline", "one-file-mixed-blocks", "one-file-long"}[rng.Intn(6)]
 			nEp := 1 + rng.Intn(3)
 			perm := rng.Perm(3)
 			var list []string
